@@ -100,7 +100,7 @@ def gen_op(rng, kind=None, api=None, max_rows=6, pool=40):
     # each) are shared between runs; schedules and histories are what vary freely.
     import random
     kind = kind or rng.choice(KIND_NAMES)
-    api = api or rng.choices(['table', 'iter', 'csv', 'df', 'cli'], [40, 25, 15, 8, 12])[0]
+    api = api or rng.choices(['table', 'iter', 'csv', 'df', 'cli', 'csviter'], [38, 22, 13, 8, 12, 7])[0]
     rng = random.Random('c16tbl:%s:%d:%d' % (kind, rng.randrange(pool), max_rows))
     query, opt = KINDS[kind]
     nrows = rng.choice([0, 1, 2, 3, 4, 4, max_rows]) if max_rows > 4 else rng.choice([1, 2, 3, 4, 4])
@@ -119,6 +119,8 @@ def gen_op(rng, kind=None, api=None, max_rows=6, pool=40):
             op['join_header'] = ['key', 'jval', 'jtag']
     if opt.get('init'):
         op['init'] = opt['init']
+    if op['api'] == 'csviter' and (opt.get('ragged') or kind in ('star', 'except', 'err_unknown_join') or not rows):
+        op['api'] = 'iter'
     if op['api'] in ('csv', 'cli', 'df') and (opt.get('init') or opt.get('ragged') and op['api'] == 'df'):
         op['api'] = 'table'
     if op['api'] == 'df' and (not rows or opt.get('join') and not op.get('join_rows')):
@@ -181,6 +183,48 @@ def make_sim_classes(t):
     return SimIterator, SimWriter, SimRegistry
 
 
+def make_csv_sim_classes(t):
+    import io as _io
+
+    class YCSVIterator(t.csv.CSVRecordIterator):
+        def __init__(self, text, has_header, table_name, prefix, baton, tid):
+            self._b, self._tid = None, tid       # the constructor pre-reads the first record: not a scheduling point
+            t.csv.CSVRecordIterator.__init__(self, _io.StringIO(text), None, ',', 'quoted', has_header=has_header, table_name=table_name, variable_prefix=prefix, chunk_size=5)
+            self._b = baton
+
+        def get_record(self):
+            if self._b is not None:
+                self._b.yield_point(self._tid, 'get_record', self.variable_prefix)
+            return t.csv.CSVRecordIterator.get_record(self)
+
+    class YCSVWriter(t.csv.CSVWriter):
+        def __init__(self, stream, baton, tid):
+            t.csv.CSVWriter.__init__(self, stream, False, None, ',', 'quoted')
+            self._b, self._tid = baton, tid
+
+        def write(self, fields):
+            if self._b is not None:
+                self._b.yield_point(self._tid, 'write')
+            return t.csv.CSVWriter.write(self, fields)
+
+        def finish(self):
+            if self._b is not None:
+                self._b.yield_point(self._tid, 'finish')
+            return t.csv.CSVWriter.finish(self)
+
+    class YCSVRegistry(t.engine.RBQLTableRegistry):
+        def __init__(self, text, has_header, baton, tid):
+            self.text, self.has_header, self._b, self._tid = text, has_header, baton, tid
+
+        def get_iterator_by_table_id(self, table_id, alias):
+            if self._b is not None:
+                self._b.yield_point(self._tid, 'registry', table_id)
+            if table_id.lower() != 'b':
+                return None
+            return YCSVIterator(self.text, self.has_header, table_id, alias, self._b, self._tid)
+    return YCSVIterator, YCSVWriter, YCSVRegistry
+
+
 _sim_classes = {}
 
 
@@ -215,6 +259,17 @@ def run_op(t, op, baton=None, tid=0):
             reg = SimRegistry(join_rows, jheader, baton, tid) if join_rows is not None else None
             t.engine.query(op['query'], it, wr, warnings, reg, user_init_code=op.get('init', ''))
             return norm(['ok', out, wr.header, warnings])
+        if api == 'csviter':
+            import io as _io
+            if 'csv' not in _sim_classes:
+                _sim_classes['csv'] = make_csv_sim_classes(t)
+            YCSVIterator, YCSVWriter, YCSVRegistry = _sim_classes['csv']
+            sink = _io.StringIO()
+            it = YCSVIterator(workload.to_csv(([header] if header else []) + rows), bool(header), 'input', 'a', baton, tid)
+            wr = YCSVWriter(sink, baton, tid)
+            reg = YCSVRegistry(workload.to_csv(([jheader] if jheader else []) + join_rows), bool(header), baton, tid) if join_rows is not None else None
+            t.engine.query(op['query'], it, wr, warnings, reg, user_init_code=op.get('init', ''))
+            return norm(['ok', sink.getvalue(), warnings])
         if api == 'table':
             out = []
             out_header = []
@@ -295,7 +350,7 @@ def child_interleaved(sc):
     n = len(sc['ops'])
     trace_files = ()
     if sc.get('line_every'):
-        trace_files = (t.engine.__file__, '<main loop>')
+        trace_files = (t.engine.__file__, '<main loop>', t.csv.__file__)
     baton = Baton(n, sc['picks'], log, max_yields=20000, line_every=sc.get('line_every'), trace_files=trace_files)
     outs = [None] * n
 
@@ -378,7 +433,7 @@ def generate(rng, tier, idx):
                           ['like', 'like2', 'where'], ['init_code', 'uses_foo', 'init_import', 'uses_math'],
                           ['err_runtime', 'agg_group', 'unnest', 'err_agg_misuse'], ['update', 'update_nu', 'distinct', 'top', 'limit_distinct']])
         kinds = rng.sample(fam, min(n, len(fam)))
-    ops = [gen_op(rng, k, api='iter', max_rows=4, pool=(40 if tier == 'quick' else 400)) for k in kinds]
+    ops = [gen_op(rng, k, api=rng.choice(['iter', 'iter', 'iter', 'csviter']), max_rows=4, pool=(40 if tier == 'quick' else 400)) for k in kinds]
     sc = {'part': 'B', 'ops': ops, 'picks': gen_picks(rng, len(ops), rng.choice([20, 40, 60, 90]))}
     if rng.random() < ((0.3 if same_family else 0.08) if tier == 'quick' else 0.35):
         sc['line_every'] = rng.choice([1, 2, 3, 5, 7])
